@@ -1198,7 +1198,15 @@ def _unpack_and_recover_state(
     resolved = app._call_state_cache.get(call_id, auth, now, method_name)
     if resolved is None:
         resolved = _resolve_call_from_token(app, call_token, call_id, state_info, auth, method_name)
-        app._call_state_cache.put(call_id, auth, resolved, now, method_name)
+        # The entry must not outlive the call token it was rebuilt from: the
+        # token is rejected from ``created_at + ttl + 1`` on, and a hit must
+        # never serve what a miss would refuse.
+        not_after = (
+            resolved.created_at + app._token_ttl + 1
+            if app._token_ttl > 0 and resolved.created_at is not None
+            else None
+        )
+        app._call_state_cache.put(call_id, auth, resolved, now, method_name, not_after)
 
     if resolved.stream_id:
         _current_stream_id.set(resolved.stream_id)
@@ -1273,7 +1281,10 @@ def _resolve_call_from_token(
         input_schema_bytes,
         token_call_id,
         stream_id,
-    ) = _open_call_token(call_token, app._token_key, _compute_call_aad(auth, method_name), app._token_ttl)
+        created_at,
+    ) = _open_call_token(
+        call_token, app._token_key, _compute_call_aad(auth, method_name), app._token_ttl, with_created_at=True
+    )
     # Constant-time compare: the ids are both server-minted and already
     # authenticated, so this is belt-and-braces against a client pairing two
     # of its own tokens from different streams.
@@ -1315,4 +1326,4 @@ def _resolve_call_from_token(
                 status_code=HTTPStatus.BAD_REQUEST,
             ) from exc
 
-    return _ResolvedCall(call_state, output_schema, input_schema, stream_id)
+    return _ResolvedCall(call_state, output_schema, input_schema, stream_id, created_at)
